@@ -92,6 +92,11 @@ def run_case(ctx, case_seed):
         spy = SpyCassette(box.cassette)
         rec = TapeRecorder(spy)
         rec.enable_recording()
+        past = rng.random() < 0.35
+        if past:
+            from vlib.history import give_past
+            give_past(rec, spy, case_seed + 9000, ctx, like=prog)
+            ctx.count('cases_with_recorder_history')
         live = Built(prog, rec, World(prog['seed_world']))
         live.run('live')
         saves = [e for e in spy.log if e[0] == 'save']
@@ -103,6 +108,21 @@ def run_case(ctx, case_seed):
             ctx.count('recordings_out_of_serializer_domain')
             return
         rec2 = TapeRecorder(box.reader())
+        if past:
+            rec2 = rec          # replay on the recorder with the past (its cassette holds the recording)
+            if rng.random() < 0.5:
+                # ... and right after a replay that failed out of play() having made output calls
+                pf = clone(p2)
+                if pf['inputs']:
+                    d0 = pf['inputs'][0]
+                    pf['body'] = list(pf['body']) + [{'op': 'in', 'decl': d0['name'], 'args': [{'lit': 'never'}] * d0['nparams'],
+                                                      'kwargs': {'extra': {'lit': 'never-recorded'}}, 'var': 'zz'}]
+                    if pf['body'][-2]['op'] in ('return', 'raise'):
+                        pf['body'][-2], pf['body'][-1] = pf['body'][-1], pf['body'][-2]
+                    try:
+                        rec.play(saves[0][2], playback_function_for(Built(pf, rec, World(1, poison=True), cls_name=live.cls.__name__)))
+                    except BaseException:  # noqa
+                        ctx.count('failed_replays_before_the_judged_one')
         rep = Built(p2, rec2, World(prog['seed_world'], poison=True), cls_name=live.cls.__name__)
         try:
             pb = rec2.play(saves[0][2], playback_function_for(rep))
